@@ -32,7 +32,18 @@ def parseEvent (s : String) : Option LEv :=
     pure ⟨t, n⟩
   | _ => none
 
-def showEv (e : LEv) : String := String.ofList [evTypes.getD e.ty '?'] ++ toString e.id
+/-- type 5 = the start event of a ticker (`startTickerEvent{id}`): queued by `AddTicker`, never by a script's `add`,
+no handler can be registered for it and nothing can wait for it (`parseType` does not know the letter) -/
+def tickerTy : Nat := 5
+
+def showEv (e : LEv) : String :=
+  if e.ty == tickerTy then "T" ++ toString e.id else String.ofList [evTypes.getD e.ty '?'] ++ toString e.id
+
+/-- events as they appear in observations: also `T<id>` -/
+def parseObsEvent (s : String) : Option LEv :=
+  match s.toList with
+  | 'T' :: d :: rest => (natOf? (String.ofList (d :: rest))).map fun n => ⟨tickerTy, n⟩
+  | _ => parseEvent s
 
 def parseFlags (s : String) : Option HOpts :=
   if s == "-" then some ⟨false, false⟩
@@ -130,6 +141,7 @@ def queueOracle : Fam := { σ := QOr, init := {}, step := queueOracleStep }
 
 structure ElSt where
   el : Option EL := none
+  ntick : Nat := 0                   -- tickers added so far (AddTicker numbers them from 0)
   progs : List (List Act) := []
   ctxs : List (List EL.Op) := []     -- what the CancelFunc of context c does
 
@@ -223,6 +235,12 @@ def evloopStep (st : ElSt) (toks : List String) : ElSt × String :=
     match parseType t, parseEvent e with
     | some t, some e => ({ st with el := some (EL.step s (.delay t e)).1 }, "ok")
     | _, _ => (st, "bad-op")
+  | ["ticker"], some s =>
+    -- AddTicker: `eventQ.push(startTickerEvent{id})` with the same warning on overflow.  No handler is registered for
+    -- the type and nothing waits for it, so the model's AddEvent of a type-5 event is exactly that push, and the Tick
+    -- that pops it calls nobody (Go: startTicker instead of processEvent).
+    let r := EL.step s (.add ⟨tickerTy, st.ntick⟩)
+    ({ st with el := some r.1, ntick := st.ntick + 1 }, showLog r.2)
   | ["tick"], some s =>
     let r := EL.tick s
     match r.2 with
@@ -288,7 +306,7 @@ inductive OObs where
 def parseObs (s : String) : OObs :=
   let cs := s.toList
   if s.startsWith "drop:" then
-    match parseEvent (dropStr 5 s) with
+    match parseObsEvent (dropStr 5 s) with
     | some e => .drop e
     | none => .junk s
   else if cs.head? == some 'r' then
@@ -310,6 +328,7 @@ structure ElOr where
   progs : List (List Act) := []
   ctxs : List (List Act) := []
   cancelled : List Nat := []
+  ntick : Nat := 0
 
 namespace ElOr
 
@@ -483,6 +502,13 @@ def evloopOracleStep (s : ElOr) (toks : List String) : ElOr × String :=
     match parseType t, parseEvent e with
     | some t, some e => ({ s with waiting := s.waiting ++ [(t, e)] }, "pass")
     | _, _ => (s, "pass")
+  | ["ticker"] =>
+    -- a ticker's start event is one more pending event: it takes a place in the queue, is dropped (and reported) only
+    -- as the oldest pending event of a full queue, and the Tick that takes it out calls no handler
+    let e : LEv := ⟨tickerTy, s.ntick⟩
+    let s1 := { s with ntick := s.ntick + 1 }
+    let obs := if rhs == ["-"] then [] else rhs.map parseObs
+    ElOr.finish (s1.consumeAdd obs e) s1
   | ["tick"] =>
     match s.pending, rhs with
     | [], ["idle"] => (s, "pass")
